@@ -158,5 +158,7 @@ pub fn project(bytes: &[u8], tags: &dyn Fn(u32) -> String, gtag: &dyn Fn(u32) ->
         }
     }
     let exports: Vec<Json> = m.exports.iter().map(|e| json!({"name": e.name, "kind": e.kind, "idx": e.target})).collect();
-    Some(json!({"funcs": funcs, "globals": globals, "mems": mems, "tables": tables, "elems": elems, "data": data, "exports": exports, "start": m.start}))
+    // the linkage a host must satisfy
+    let imports: Vec<Json> = m.imports.iter().map(|i| json!([i.module, i.field, i.kind])).collect();
+    Some(json!({"funcs": funcs, "globals": globals, "mems": mems, "tables": tables, "elems": elems, "data": data, "exports": exports, "start": m.start, "imports": imports}))
 }
